@@ -21,6 +21,8 @@ def jobs(tier, seed):
     out.append({"kind": "pump-sched", "gran": "line", "bound": 3 if q else 4, "ncmd": 3})
     out.append({"kind": "pump-sched", "gran": "line", "bound": 2 if q else 3, "ncmd": 3, "with_stop": True})
     out.append({"kind": "pump-sched", "gran": "opcode", "bound": 1 if q else 2, "ncmd": 2})
+    for i in range(4 if q else 16):
+        out.append({"kind": "sim-race", "seed": seed, "i": i, "n": 60 if q else 400})
     for i in range(6 if q else 16):
         out.append({"kind": "producers", "seed": seed, "i": i, "producers": 2 + i % 5, "per": 1000 if q else 5000})
     return out
@@ -144,7 +146,7 @@ def run_pump_sched(job, res):
     import mysensors.task as mtask
     from mysensors import BaseSyncGateway
     from ..fakes import Patched
-    from ..linesched import Explorer
+    from ..linesched import Blocked, Explorer, SchedThreading
 
     codes = [mtask.SyncTasks._poll_queue.__code__, mtask.Tasks.run_job.__code__, mtask.SyncTasks.add_job.__code__,
              mtask.SyncTasks.stop.__code__]
@@ -169,7 +171,9 @@ def run_pump_sched(job, res):
 
     def make(explorer):
         t = T()
-        gw = BaseSyncGateway(t)
+        # events / locks the tasks object creates are scheduler-aware (a wait yields instead of blocking the OS thread)
+        with Patched((mtask, "threading", SchedThreading(explorer))):
+            gw = BaseSyncGateway(t)
         tasks = gw.tasks
         state = {"sleeps": 0}
 
@@ -208,8 +212,13 @@ def run_pump_sched(job, res):
                 continue
             if "B" in run.errors:
                 exc = run.errors["B"]
-                res.violation(f"pump-raises:{core.exc_sig(exc)}", f"the poll loop raised {type(exc).__name__}: {exc} under schedule {sched}", case)
-                continue
+                if isinstance(exc, Blocked):
+                    if ctx["tasks"].queue and not with_stop:
+                        res.violation("pump-blocked-with-queued-commands", f"the poll loop waits forever although {len(ctx['tasks'].queue)} command(s) are queued (lost wake-up) under schedule {sched}", case)
+                        continue
+                else:
+                    res.violation(f"pump-raises:{core.exc_sig(exc)}", f"the poll loop raised {type(exc).__name__}: {exc} under schedule {sched}", case)
+                    continue
             if "A" in run.errors:
                 exc = run.errors["A"]
                 res.violation(f"add-job-raises:{core.exc_sig(exc)}", f"add_job raised {type(exc).__name__}: {exc} under schedule {sched}", case)
@@ -239,6 +248,37 @@ def run_pump_sched(job, res):
         res.sample({"kind": "pump-sched", "gran": job["gran"], "bound": job["bound"], "commands": NCMD})
     finally:
         ex.uninstall()
+
+
+def run_sim_race(job, res):
+    """send() racing with a user disconnect / a link failure in the REAL threaded serial and TCP stacks
+    (reader thread, poll thread, ReaderThread / TCPTransport write and close) under the thread simulation."""
+    import faulthandler
+    from ..lifetimes import run_threaded
+
+    faulthandler.dump_traceback_later(600, exit=True)
+    try:
+        for k in range(job["n"]):
+            kind = ["tcp", "serial"][k % 2]
+            tok = ["race-disconnect", "race-read-error"][(k // 2) % 2]
+            script = ["ok", "traffic", tok] + (["ok", tok] if tok == "race-read-error" else [])
+            ev, meta = run_threaded(kind, job["seed"] * 10000 + job["i"] * 1000 + k, script, rt=3.0)
+            res.evals += 1
+            res.count("sim_race_lifetimes")
+            case = {"kind": "sim-race", "gw": kind, "token": tok, "seed": meta["seed"]}
+            for n, tname, msg in meta.get("thread_errors", []):
+                if str(n).startswith("_poll_queue"):
+                    res.violation(f"sim-race:pump-died:{tname}:{kind}", f"{kind}: the poll thread died with {tname}: {msg} when a send raced with {tok}", case)
+                else:
+                    res.count("sim_race_other_thread_exceptions")     # not the pump: outside C16 (see DESIGN section 11)
+            writes = [e[3] for e in ev if e[1] == "WRITE" and b";3;0;6;" in e[3]]
+            acts = sum(1 for e in ev if e[1] == "ACTION" and e[2] in ("traffic", tok))
+            if len(writes) > acts:
+                res.violation(f"sim-race:reply-written-twice:{kind}", f"{kind}: {len(writes)} replies written for {acts} requests", case)
+            res.nontrivial(("sim-race", kind, tok, k))
+        res.sample({"kind": "sim-race", "n": job["n"]})
+    finally:
+        faulthandler.cancel_dump_traceback_later()
 
 
 def run_producers(job, res):
@@ -332,6 +372,8 @@ def run(job):
         run_sched(job, res)
     elif job["kind"] == "pump-sched":
         run_pump_sched(job, res)
+    elif job["kind"] == "sim-race":
+        run_sim_race(job, res)
     else:
         run_producers(job, res)
     return res
@@ -339,7 +381,9 @@ def run(job):
 
 def replay(case):
     res = Result()
-    if case["kind"] == "pump-sched":
+    if case["kind"] == "sim-race":
+        r = run({"kind": "sim-race", "seed": 0, "i": 0, "n": 200})
+    elif case["kind"] == "pump-sched":
         r = run({"kind": "pump-sched", "gran": case["gran"], "bound": case.get("bound", 2), "ncmd": 3, "with_stop": case.get("with_stop", False)})
     elif case["kind"] == "sched":
         r = run({"kind": "sched", "scenario": case["scenario"], "write_fails": case["write_fails"], "gran": case["gran"], "bound": 2})
@@ -359,13 +403,17 @@ def finish(agg, tier):
                 "thorough 3) plus opcode granularity (quick 1, thorough 2), both start orders; the transport lock is scheduler-aware. "
                 "Oracle per schedule: no exception out of send, command written at most once and completely, never to a closed "
                 "connection (the fake refuses). Producer vs. the real poll loop (_poll_queue / run_job / add_job) under the same scheduler: "
-                "every queued command written exactly once and in queue order. Producers x pump: 2-6 real producer threads and the real poll thread (switch interval "
+                "every queued command written exactly once and in queue order (events the tasks object waits on are scheduler-aware, so a "
+                "lost wake-up shows as the loop waiting forever with commands queued). The same races in the real threaded serial / "
+                "TCP stacks under the thread simulation: a reply being sent exactly when the user disconnects or the link fails. "
+                "Producers x pump: 2-6 real producer threads and the real poll thread (switch interval "
                 "10 us) checked by an exactly-once / per-producer-FIFO log checker. distinct = (scenario, write outcome, granularity, "
                 "start thread, switch positions); non-trivial when the schedule really switched inside both bodies.",
         "exhaustive": True,
         "floors": [("schedules", c.get("schedules", 0), 1500), ("schedules_with_real_interleaving", c.get("schedules_with_real_interleaving", 0), 1000),
                    ("commands_written", c.get("commands_written", 0), 4000),
-                   ("pump_schedules_with_real_interleaving", c.get("pump_schedules_with_real_interleaving", 0), 300)],
+                   ("pump_schedules_with_real_interleaving", c.get("pump_schedules_with_real_interleaving", 0), 300),
+                   ("sim_race_lifetimes", c.get("sim_race_lifetimes", 0), 200)],
         "assumptions": ["exhaustive below the stated preemption bound only; preemption points are source lines / opcodes of the transport "
                         "and protocol methods (library code they call is atomic for the scheduler)"],
         "show": ["schedules", "schedules_with_real_interleaving", "writes_observed", "dropped_sends", "event_side_exceptions", "commands_queued", "commands_written"],
